@@ -107,9 +107,9 @@ class Task(object):
             self.duration = self.calculate_runtime(machine)
         total_duration = self._calc_task_delay()
         if total_duration < 1:
-            yield env.timeout(1)
-        else:
-            yield env.timeout(total_duration - 1)
+            # Work smaller than one timestep still occupies one full timestep
+            total_duration = 1
+        yield env.timeout(total_duration - 1)
 
         if self.duration < total_duration:
             self.delay_flag = True
